@@ -113,9 +113,32 @@ def _ref(rows):
     return ref
 
 
-def _run(i, tgt, anti, ref):
-    from cnvlib import fix
-    out = fix.do_fix(_cna(tgt, SC), _cna(anti, SC), _ref(ref), do_gc=i["do_gc"], do_edge=i["do_edge"], do_rmask=i["do_rmask"])
+def _run(i, tgt, anti, ref, record=None):
+    from cnvlib import fix, descriptives
+    if record is not None:
+        # the two residual spreads are third-party numerics (biweight midvariance, C19): capture the values
+        # apply_weights actually obtains (the estimator switches to a MAD fallback on exactly symmetric data,
+        # so recomputing it from the output can differ by a float knife-edge)
+        real = descriptives.biweight_midvariance
+
+        class _Rec:
+            def __getattr__(self, name):
+                return getattr(descriptives, name)
+
+            def biweight_midvariance(self, *a, **k):
+                v = real(*a, **k)
+                record.append(float(v))
+                return v
+        saved = fix.descriptives
+        fix.descriptives = _Rec()
+        try:
+            out = fix.do_fix(_cna(tgt, SC), _cna(anti, SC), _ref(ref), do_gc=i["do_gc"], do_edge=i["do_edge"],
+                             do_rmask=i["do_rmask"])
+        finally:
+            fix.descriptives = saved
+    else:
+        out = fix.do_fix(_cna(tgt, SC), _cna(anti, SC), _ref(ref), do_gc=i["do_gc"], do_edge=i["do_edge"],
+                         do_rmask=i["do_rmask"])
     d = out.data
     return out, [[str(d["chromosome"].iat[k]), int(d["start"].iat[k]), int(d["end"].iat[k]), str(d["gene"].iat[k]),
                   float(d["log2"].iat[k]), float(d["weight"].iat[k])] for k in range(len(d))]
@@ -126,7 +149,10 @@ def run_impl(case):
     import numpy as np
     from cnvlib import descriptives, smoothing
     i = case["in"]
-    out, rows = _run(i, i["tgt_f"], i["anti_f"], i["ref_f"])
+    rec = []
+    out, rows = _run(i, i["tgt_f"], i["anti_f"], i["ref_f"], record=rec)
+    if any(math.isnan(r[4]) or math.isnan(r[5]) for r in rows):
+        return {"nan": True}
     # parameters (third-party numerics), recomputed with the same library calls
     is_anti = out["gene"].isin(("Antitarget", "Background"))
     nT, nA = int((~is_anti).sum()), int(is_anti.sum())
@@ -143,15 +169,20 @@ def run_impl(case):
             return p, 1
     pT, wT = perm_wing(nT)
     pA, wA = perm_wing(nA)
-    tg = out[~is_anti]
-    varT = float(descriptives.biweight_midvariance(tg.drop_low_coverage().residuals()) ** 2) if nT else 0.0
-    varA = 0.0
-    if nA:
-        varA = float(descriptives.biweight_midvariance(out[is_anti].drop_low_coverage().residuals()) ** 2)
+    varT = rec[0] ** 2 if rec else 0.0
+    varA = rec[1] ** 2 if len(rec) > 1 else 0.0
+    # the doubles numpy computes for the edge-bias sort keys of the good target bins (they depend on the
+    # coordinates only); the model orders ties / near-ties by these and checks them against its exact formula
+    edge_keys = []
+    if i["do_edge"] and nT:
+        from cnvlib import fix, params
+        tg_sorted = out[~is_anti].copy()
+        tg_sorted.sort()
+        edge_keys = [frac(float(v)) for v in fix.get_edge_bias(tg_sorted, params.INSERT_SIZE)]
     sq = [[r[0], r[1], r[2], frac(float(np.sqrt(np.int64(r[2] - r[1]))))] for r in i["tgt_f"] + i["anti_f"]]
     res = {"rows": [[r[0], r[1], r[2], r[3], frac(r[4]), frac(r[5])] for r in rows],
            "permT": pT, "wingT": wT, "permA": pA, "wingA": wA,
-           "varT": frac(varT) if math.isfinite(varT) else "0", "varA": frac(varA) if math.isfinite(varA) else "0", "sqrt": sq}
+           "edge_keys": edge_keys, "varT": frac(varT) if math.isfinite(varT) else "0", "varA": frac(varA) if math.isfinite(varA) else "0", "sqrt": sq}
     # metamorphic variants: permuted rows of every input; depth rescaled (constant added to the sample's log2)
     prng = random.Random(i["pseed"])
     t2, a2, r2 = list(i["tgt_f"]), list(i["anti_f"]), list(i["ref_f"])
@@ -159,12 +190,26 @@ def run_impl(case):
     _o, rows_p = _run(i, t2, a2, r2)
     res["perm_same"] = _same(rows, rows_p)
     c = i["scale"]
-    t3 = [r[:4] + [r[4] + c if r[5] > 0 else r[4], r[5] * 2 ** c] for r in i["tgt_f"]]
-    a3 = [r[:4] + [r[4] + c if r[5] > 0 else r[4], r[5] * 2 ** c] for r in i["anti_f"]]
-    _o, rows_s = _run(i, t3, a3, i["ref_f"])
-    # bins without any read stay at the null-coverage sentinel whatever the depth scale: compare the others
+
+    def scaled(rows_):
+        return [r[:4] + [r[4] + c if r[5] > 0 else r[4], r[5] * 2 ** c] for r in rows_]
+    # (a) on the bins that have coverage: every depth multiplied by 2**c must leave the output unchanged
+    t0 = [r for r in i["tgt_f"] if r[5] > 0]
+    a0 = [r for r in i["anti_f"] if r[5] > 0]
+    res["scale_same"] = True
+    if len(t0) >= 2:
+        try:
+            _o, rows_0 = _run(i, t0, a0, i["ref_f"])
+            _o, rows_s0 = _run(i, scaled(t0), scaled(a0), i["ref_f"])
+            res["scale_same"] = _same(rows_0, rows_s0)
+        except ValueError as e:
+            if "width must be" not in str(e):
+                raise
+    # (b) faithful rescale with the zero-coverage bins left at the sentinel (they have no reads to scale)
+    _o, rows_s = _run(i, scaled(i["tgt_f"]), scaled(i["anti_f"]), i["ref_f"])
     null = {(r[0], r[1], r[2]) for r in i["tgt_f"] + i["anti_f"] if r[5] == 0}
-    res["scale_same"] = _same([r for r in rows if tuple(r[:3]) not in null], [r for r in rows_s if tuple(r[:3]) not in null])
+    res["scale_same_null"] = _same([r for r in rows if tuple(r[:3]) not in null],
+                                   [r for r in rows_s if tuple(r[:3]) not in null])
     return res
 
 
@@ -187,20 +232,41 @@ def to_line(case, impl):
     i = case["in"]
     base = {"tgt": _rows_json(i["tgt_f"], 6), "anti": _rows_json(i["anti_f"], 6), "ref": _rows_json(i["ref_f"], 9),
             "do_gc": i["do_gc"], "do_edge": i["do_edge"], "do_rmask": i["do_rmask"], "par": i["par"]}
-    if isinstance(impl, dict) and "__error__" in impl:
+    if isinstance(impl, dict) and ("__error__" in impl or impl.get("nan")):
         base.update(permT=[], wingT=1, permA=[], wingA=1, varT="0", varA="0", sqrt=[])
         return {"op": "fix", "in": base}
     base.update({k: impl[k] for k in ("permT", "wingT", "permA", "wingA", "varT", "varA", "sqrt")})
+    if impl.get("edge_keys"):
+        base["edge_keys"] = impl["edge_keys"]
     return {"op": "fix", "in": base, "impl": impl["rows"]}
 
 
+def classify_null_bins(case, impl, resp):
+    """finding W: zero-coverage bins stay at the -20 sentinel whatever the depth; they take part in the
+    antitarget centring (skip_low=False) and in the rolling medians of the corrections, so the result depends
+    (slightly, or grossly on tiny tables) on the depth scale"""
+    return any(r[5] == 0 for r in case["in"]["anti_f"] + case["in"]["tgt_f"])
+
+
+def classify_single_bin_class(case, impl, resp):
+    """finding X: a class (targets or antitargets) with exactly one usable bin makes the smoothing fraction
+    max(0.01, n**-0.5) = 1.0, which rolling_median rejects"""
+    return (isinstance(impl, dict) and impl.get("__error__") == "ValueError" and "width must be" in impl.get("msg", "")
+            and "(got 1.0)" in impl.get("msg", ""))
+
+
 def judge(case, impl, resp):
+    if isinstance(impl, dict) and impl.get("nan"):
+        live = [r for r in case["in"]["tgt_f"] if r[5] > 0]
+        if len(live) < 2:
+            return [], [], "degenerate: fewer than two target bins with any coverage"
+        return ["weight_in_range"], [], None
     if "error" in resp:
         return [], ["model error: " + resp["error"]], None
     out = resp["out"]
     model_err = isinstance(out, dict) and "error_kind" in out
     if isinstance(impl, dict) and "__error__" in impl:
-        if model_err and impl["__error__"] == "ValueError":
+        if model_err and impl["__error__"] == "ValueError" and "width must be" not in impl.get("msg", ""):
             return [], [], None  # refuses a missing / duplicated bin, as the property demands
         return ["raises_" + impl["__error__"]], [], None
     if model_err:
@@ -210,8 +276,12 @@ def judge(case, impl, resp):
         spec.append("permutation_invariant")
     if impl["scale_same"] is not True:
         spec.append("depth_scale_invariant")
+    if impl["scale_same_null"] is not True:
+        spec.append("depth_scale_invariant_with_null_bins")
     dis = []
     rows = impl["rows"]
+    if "edge_key_dev" in resp and Fraction(resp["edge_key_dev"]) > Fraction(1, 10 ** 9):
+        dis.append(f"edge-bias keys: real doubles deviate from the exact formula by {float(Fraction(resp['edge_key_dev']))}")
     if len(out) != len(rows):
         dis.append(f"row count model {len(out)} impl {len(rows)}")
     else:
@@ -231,8 +301,8 @@ def judge(case, impl, resp):
 
 def nontrivial(case, impl, resp):
     i = case["in"]
-    if isinstance(impl, dict) and "__error__" in impl:
-        return True
+    if isinstance(impl, dict) and ("__error__" in impl or impl.get("nan")):
+        return "__error__" in impl
     return i["shuffled"] or i["do_gc"] or i["do_edge"] or i["do_rmask"] or len(impl["rows"]) < len(i["tgt_f"]) + len(i["anti_f"])
 
 
